@@ -103,4 +103,15 @@ theorem C10_batched_logpdf_eq_rows {K : Type} [Add K] [Sub K] [Mul K] [Div K] [N
     simp only [h1, h2]
   exact ⟨this, by unfold logpdfT; rw [this]⟩
 
+/-- the log-density of a row depends on nothing but the row: position, batch size and the other rows are irrelevant -/
+theorem C10_logpdf_same_row_same_result {K : Type} [Add K] [Sub K] [Mul K] [Div K] [Neg K] [OfNat K 0] [OfNat K 1]
+    [OfScientific K] [LT K] [LE K] [DecidableLT K] [DecidableLE K] [BEq K]
+    (P : Prim K) (L : LogPrim K) (s : Spec K) (st : Settings K) (m : Model K) (hbuild : buildModel P s st = .ok m)
+    (hreads : readsBelow m m.npars = true) (hcreads : constraintReadsBelow m m.npars = true)
+    (rows rows' : List (List K)) (hrows : ∀ r ∈ rows, r.length = m.npars) (hrows' : ∀ r ∈ rows', r.length = m.npars)
+    (t t' : Nat) (ht : t < rows.length) (ht' : t' < rows'.length) (hsame : rows.getD t [] = rows'.getD t' []) (data : List K) :
+    logpdfT P L m (parOfRow m.npars rows t) data = logpdfT P L m (parOfRow m.npars rows' t') data := by
+  rw [(C10_batched_logpdf_eq_rows P L s st m hbuild hreads hcreads rows hrows t ht data).2,
+      (C10_batched_logpdf_eq_rows P L s st m hbuild hreads hcreads rows' hrows' t' ht' data).2, hsame]
+
 end Pyhf.Props.C10
